@@ -12,7 +12,7 @@ RULE = ("EXHAUSTIVE grid, every run: 20 tag kinds (value, triple, ampersand, com
         "~ after, both, none} x 16 left contexts x 15 right contexts drawn from {start/end of template, LF, CRLF, spaces, "
         "tabs, text, text+LF+indent, blank line, NBSP / U+3000 / U+2003 / VT / FF (removed by '~', never blank)}; a second EXHAUSTIVE grid with ANOTHER TAG as the neighbour (value, triple, comment, "
         "value with '~' towards the tag) x gap {none, space, LF, mixed} x text beyond the neighbour x the other side – a '~' removes the gap and nothing "
-        "beyond the neighbouring tag, and a line holding another tag is not standalone; plus random multi-line templates built from such lines; the family of the Lean theorem C11.tilde_value_trims_both_sides (any text, {{~v~}}, any text; oracle = the theorem's closed form, exact); oracle = the "
+        "beyond the neighbouring tag, and a line holding another tag is not standalone; plus random multi-line templates built from such lines; the family of the Lean theorems C11.tilde_value_trims_both_sides / tilde_before_value_trims_left_only / tilde_after_value_trims_right_only (any text, {{~v~}} | {{~v}} | {{v~}}, any text; oracle = the theorems' closed form, exact); oracle = the "
         "source-level whitespace rules (tilde: the whole whitespace run of the adjacent text; standalone line: "
         "indentation and one line break) evaluated on the source as written; non-trivial = the tag is standalone or has "
         "a tilde next to whitespace; distinct by cell")
@@ -261,7 +261,7 @@ def generate(rng, n, tier="quick"):
         case = session({"escape": "none"}, [("p", "P")], {"api": "render_template", "src": src}, {"v": "V"})
         case["id"] = "%s-r%05d" % (ID, j)
         out.append((case, {"cell": ["random"], "expect": res, "standalone": True, "src": src}))
-    # the family of the Lean theorem C11.tilde_value_trims_both_sides: L ++ {{~v~}} ++ R for any text L that may stand before a
+    # the family of the Lean theorems C11.tilde_value_trims_both_sides (and the one-sided forms): L ++ {{~v~}} ++ R for any text L that may stand before a
     # tag and any text R without '{{' (whitespace of every kind, non-ASCII included, next to the tag); the expectation is the
     # theorem's closed form  trim_end(L) ++ escape(v) ++ trim_start(R)
     from .C03 import thm_left, thm_right
@@ -272,13 +272,14 @@ def generate(rng, n, tier="quick"):
             L += r.pick([" ", "\n\t", "\u00a0", " \u3000\r\n", "\x0c "])
         if r.chance(0.5):
             R = r.pick([" ", "\n\t", "\u00a0", " \u3000\r\n", "\x0b"]) + R
-        src = L + "{{~v~}}" + R
+        form = r.pick(["both", "both", "left", "right"])
+        src = L + {"both": "{{~v~}}", "left": "{{~v}}", "right": "{{v~}}"}[form] + R
         esc = r.pick(["none", "html"])
         val = r.pick(["V", "<b>", "a&b", ""])
         shown = val if esc == "none" else val.replace("&", "&amp;").replace("<", "&lt;").replace(">", "&gt;")
         case = session({"escape": esc}, [], {"api": "render_template", "src": src}, {"v": val})
         case["id"] = "%s-thm%04d" % (ID, k)
-        out.append((case, {"cell": ["thm"], "expect": L.rstrip(WS) + shown + R.lstrip(WS), "standalone": False, "src": src}))
+        out.append((case, {"cell": ["thm"], "expect": (L if form == "right" else L.rstrip(WS)) + shown + (R if form == "left" else R.lstrip(WS)), "standalone": False, "src": src}))
     return out
 
 
